@@ -37,6 +37,26 @@ def run_lines_parallel(exe, lines, timeout=3600, env=None, cwd=None, args=()):
 
 vlib.run_lines = run_lines_parallel
 
+# Findings this builder proposes as `known:` lines are kept in checks/Cxx.known-proposed.txt until they are
+# added to KNOWN_FINDINGS.txt. They are NOT honoured by default: only a test run with
+# VERIF_PROPOSED_KNOWN=1 reads them (to exercise the rest of the check as it will behave afterwards).
+_orig_load_known = vlib.load_known
+
+
+def load_known_with_proposed(prop):
+    res = _orig_load_known(prop)
+    if os.environ.get("VERIF_PROPOSED_KNOWN") == "1":
+        p = os.path.join(vlib.VERIF, "checks", prop + ".known-proposed.txt")
+        if os.path.exists(p):
+            for line in open(p):
+                m = re.match(r"known:\s+property=(\S+)\s+id=(\S+)\s+(.*)", line.strip())
+                if m and m.group(1) == prop:
+                    res.append({"id": m.group(2), "text": m.group(3)})
+    return res
+
+
+vlib.load_known = load_known_with_proposed
+
 # scratch root of this check run: /verif/.scratch/<prop>-<pid> (the Go driver puts one directory per driver
 # process below it, tmpfs-backed when /dev/shm exists); removed at exit, also after a driver crash
 _SCRATCH_ROOTS = []
@@ -465,7 +485,7 @@ def case_big(rng, kind, cfg_len=8192):
 # ----------------------------------------------------------------------------------------------
 # shrinker (delta debugging on rows, then on ops)
 
-def shrink_line(line, still_fails, budget=120):
+def shrink_line(line, still_fails, budget=40):
     kind, _schemas, ops = split_line(line)
     hdr = line.split(" ; ", 1)[0]
 
@@ -551,11 +571,13 @@ class C02(StoreSpec):
     lean_modules = ["Banyan.Props.C02", "Banyan.Tie.C02"]
     theorems = ["Banyan.C02." + t for t in [
         "resolve_isResolution", "isResolution_perm", "isResolution_unique_of_tieFree",
-        "dedupBatch_spec", "dedupBatch_blocks", "dedupBatch_legacy_counterexample", "dedupBatch_legacy_partial",
+        "dedupBatch_spec", "dedupBatch_blocks", "dedupBatch_legacy_counterexample",
         "mergeLoop_terminates", "mergeTwoBlocks_spec", "mergeStream_spec", "mergeParts_spec",
-        "queryMerge_spec", "query_isResolution", "version_wins_any_history", "version_wins_order_independent",
-    ]] + ["Banyan.Tie.C02." + t for t in ["maxLen_tie", "maxSize_tie", "init_guard_tie", "less_version_desc_tie",
-                                          "merge_left_wins_tie", "query_replace_strict_tie"]]
+        "queryMerge_spec", "minIdx_isMinChoice", "query_isResolution",
+        "version_wins_any_history", "version_wins_order_independent",
+    ]] + ["Banyan.Tie.C02." + t for t in ["maxLen_tie", "maxSize_tie", "init_guard_tie", "mem_split_tie",
+                                          "less_version_desc_tie", "merge_left_wins_tie", "merge_blocks_shape_tie",
+                                          "query_replace_strict_tie", "query_less_version_desc_tie"]]
     lean_driver = "C02"
     counts = {"quick": 2400, "thorough": 100000}
     trusted_base = [
